@@ -500,12 +500,12 @@ func tierBounds(t core.Tier) bounds {
 			static: []family{
 				{Graphs: graphs.Options{MaxNodes: 3, MaxEdges: 9, SelfLoops: true}, Profiles: ab},             // every labelled digraph, loops included
 				{Graphs: graphs.Options{MinNodes: 4, MaxNodes: 4, MaxEdges: 12}, Profiles: ab},                // every labelled loop-free digraph
-				{Graphs: graphs.Options{MinNodes: 5, MaxNodes: 5, MaxEdges: 6, IsoReduce: true}, Profiles: a}, // one per isomorphism class
+				{Graphs: graphs.Options{MinNodes: 5, MaxNodes: 5, MaxEdges: 7, IsoReduce: true}, Profiles: a}, // one per isomorphism class
 			},
 			history: []family{
 				{Graphs: graphs.Options{MaxNodes: 3, MaxEdges: 6}, Profiles: ab, Depth: 4},
-				{Graphs: graphs.Options{MinNodes: 4, MaxNodes: 4, MaxEdges: 12, IsoReduce: true}, Profiles: ab, Depth: 3},
-				{Graphs: graphs.Options{MinNodes: 5, MaxNodes: 5, MaxEdges: 5, IsoReduce: true}, Profiles: a, Depth: 2},
+				{Graphs: graphs.Options{MinNodes: 4, MaxNodes: 4, MaxEdges: 12, IsoReduce: true}, Profiles: ab, Depth: 4},
+				{Graphs: graphs.Options{MinNodes: 5, MaxNodes: 5, MaxEdges: 4, IsoReduce: true}, Profiles: a, Depth: 3},
 			},
 		}
 	}
@@ -516,10 +516,11 @@ func tierBounds(t core.Tier) bounds {
 			{Graphs: graphs.Options{MinNodes: 5, MaxNodes: 5, MaxEdges: 6}, Profiles: a},
 		},
 		history: []family{
-			{Graphs: graphs.Options{MaxNodes: 3, MaxEdges: 6}, Profiles: ab, Depth: 5},
+			{Graphs: graphs.Options{MaxNodes: 3, MaxEdges: 6}, Profiles: ab, Depth: 6},
 			{Graphs: graphs.Options{MinNodes: 4, MaxNodes: 4, MaxEdges: 12}, Profiles: ab, Depth: 3},
-			{Graphs: graphs.Options{MinNodes: 4, MaxNodes: 4, MaxEdges: 12, IsoReduce: true}, Profiles: a, Depth: 5},
+			{Graphs: graphs.Options{MinNodes: 4, MaxNodes: 4, MaxEdges: 12, IsoReduce: true}, Profiles: ab, Depth: 5},
 			{Graphs: graphs.Options{MinNodes: 5, MaxNodes: 5, MaxEdges: 7, IsoReduce: true}, Profiles: a, Depth: 3},
+			{Graphs: graphs.Options{MinNodes: 5, MaxNodes: 5, MaxEdges: 5, IsoReduce: true}, Profiles: a, Depth: 4},
 		},
 	}
 }
